@@ -1053,6 +1053,13 @@ func (k *c28) ruleWriter() {
 		}
 		c.OK("C28.wire-counter", funcKey(f)+" · regions explored", f.Pos(), "every boundary-to-boundary path explored with (write, +1, +count) counters")
 	}
+	// a write function reports success only when the frame went out: the counters above advance on nil
+	for _, name := range []string{"tcpClient.writeEvent", "tcpClient.writeDropped"} {
+		if wf := c.Fn(telPkg, name); wf != nil {
+			bad := k.nilOnlyAfterWrite(wf, map[*ssa.Function]bool{})
+			c.Check(bad == "", "C28.wire-counter", funcKey(wf)+" · nil means written", wf.Pos(), "every return that can be nil is the result of, or lies behind the success edge of, a call that writes to the connection (followed down to io.Writer.Write)", bad)
+		}
+	}
 	// pending guard
 	for _, we := range callsIn(wl, k.writeEvent) {
 		args := we.Common().Args
@@ -1221,6 +1228,130 @@ func (k *c28) isPeeked(f *ssa.Function, at ssa.Instruction, v ssa.Value, depth i
 		return isE && e2.Tuple == ssa.Value(call) && e2.Index == 1, true
 	})
 	return guardedBy(f, at, okEdge)
+}
+
+// nilOnlyAfterWrite: in f (which returns an error as its last result) a nil result is possible only when the
+// frame was handed to the connection: each return yields a constructed (non-nil) error, the result of a
+// writing call itself, or nil behind the success edge of a writing call. A writing call is a call of a package
+// function for which the same holds, down to a function that invokes Write on an io.Writer. Returns "" or the reason.
+func (k *c28) nilOnlyAfterWrite(f *ssa.Function, visiting map[*ssa.Function]bool) string {
+	if visiting[f] {
+		return ""
+	}
+	visiting[f] = true
+	defer delete(visiting, f)
+	invokesWrite := false
+	allInstrs(f, func(in ssa.Instruction) {
+		if ci, ok := in.(ssa.CallInstruction); ok && ci.Common().IsInvoke() && ci.Common().Method.Name() == "Write" {
+			invokesWrite = true
+		}
+	})
+	if invokesWrite {
+		return "" // the base of the chain (writeAll): loops over io.Writer.Write
+	}
+	isWriter := func(v ssa.Value) bool {
+		call, ok := v.(*ssa.Call)
+		if !ok {
+			return false
+		}
+		g := call.Call.StaticCallee()
+		if g == nil || len(g.Blocks) == 0 || g.Pkg != f.Pkg {
+			return false
+		}
+		rs := g.Signature.Results()
+		if rs.Len() == 0 || !types.Identical(rs.At(rs.Len()-1).Type(), types.Universe.Lookup("error").Type()) {
+			return false
+		}
+		return k.nilOnlyAfterWrite(g, visiting) == "" && k.reachesWrite(g, 0)
+	}
+	var writerCalls []ssa.Value
+	allInstrs(f, func(in ssa.Instruction) {
+		if v, ok := in.(ssa.Value); ok && isWriter(v) {
+			writerCalls = append(writerCalls, v)
+		}
+	})
+	if len(writerCalls) == 0 {
+		return funcKey(f) + " never hands anything to the connection"
+	}
+	var succ []edge
+	for _, w := range writerCalls {
+		succ = append(succ, errSuccessEdges(f, w)...)
+	}
+	bad := ""
+	var okValue func(v ssa.Value, at ssa.Instruction, d int) bool
+	okValue = func(v ssa.Value, at ssa.Instruction, d int) bool {
+		v = stripConv(v)
+		if d > 4 {
+			return false
+		}
+		switch x := v.(type) {
+		case *ssa.Const:
+			if x.Value != nil {
+				return true
+			}
+			return guardedBy(f, at, succ) // nil: only behind a successful write
+		case *ssa.Call:
+			if isWriter(x) {
+				return true
+			}
+			if sc := x.Call.StaticCallee(); sc != nil && (sc.String() == "fmt.Errorf" || sc.String() == "errors.New") {
+				return true
+			}
+		case *ssa.MakeInterface:
+			return true
+		case *ssa.UnOp:
+			if _, isG := x.X.(*ssa.Global); isG {
+				return true // a package-level sentinel error
+			}
+		case *ssa.Phi:
+			for i, e := range x.Edges {
+				pred := x.Block().Preds[i]
+				if !okValue(e, pred.Instrs[len(pred.Instrs)-1], d+1) {
+					return false
+				}
+			}
+			return true
+		}
+		return false
+	}
+	allInstrs(f, func(in ssa.Instruction) {
+		r, isR := in.(*ssa.Return)
+		if !isR || bad != "" {
+			return
+		}
+		res := retResults(r)
+		if len(res) == 0 {
+			return
+		}
+		if !okValue(res[len(res)-1], r, 0) {
+			bad = fmt.Sprintf("%s can return nil at %s without the frame having been written (a nil result lets the writer advance its expected wire ID although the receiver saw nothing)", funcKey(f), k.c.pos(r.Pos()))
+		}
+	})
+	return bad
+}
+
+// reachesWrite: g (transitively, within its package) invokes Write on an io.Writer.
+func (k *c28) reachesWrite(g *ssa.Function, d int) bool {
+	if d > 4 {
+		return false
+	}
+	found := false
+	allInstrs(g, func(in ssa.Instruction) {
+		ci, ok := in.(ssa.CallInstruction)
+		if !ok || found {
+			return
+		}
+		if ci.Common().IsInvoke() && ci.Common().Method.Name() == "Write" {
+			found = true
+			return
+		}
+		if h := calleeFunc(ci); h != nil && len(h.Blocks) > 0 && h.Pkg == g.Pkg && h != g {
+			if k.reachesWrite(h, d+1) {
+				found = true
+			}
+		}
+	})
+	return found
 }
 
 func isLoadOf(v ssa.Value, cell ssa.Value) bool {
